@@ -874,6 +874,12 @@ func (fx *FuncCtx) runGhost(st *State, anchor string, env *SpecEnv, pos token.Po
 }
 
 func (fx *FuncCtx) ghostAssign(st *State, env *SpecEnv, gs GhostStmt, cond string) {
+	if gs.Assume != nil {
+		t := env.boolTerm(gs.Assume)
+		st.assume(implies(cond, t))
+		fx.trusted["assumed environment fact in "+fx.key+": "+gs.Assume.String()] = true
+		return
+	}
 	// resolve LHS: ghost field x.f, ghost map element x.f[k], ghost global g, g[k]
 	var key HeapKey
 	var ref string
